@@ -659,7 +659,11 @@ func (e *SpecEnv) call(c *ECall) Val {
 		v := e.eval(c.Args[0])
 		return mkBool(eq(e.term(Val{T: "nil"}, v), x.termOf(e.st, v)))
 	}
-	pd, ok := e.x.db.Pures[c.Fn]
+	fname := c.Fn
+	if i := strings.LastIndex(fname, "."); i >= 0 {
+		fname = fname[i+1:]
+	}
+	pd, ok := e.x.db.Pures[fname]
 	if !ok {
 		e.fail("unknown spec function %s", c.Fn)
 	}
